@@ -1951,7 +1951,6 @@ func (a *boundsAn) proveByMinSplit(e lin, facts factSet, depth int) bool {
 	return false
 }
 
-
 // selectorForms: g has a single integer result and every return hands back (through phis that are not loop
 // headers) one of g's integer parameters or a constant. The call's result then equals one of the
 // corresponding arguments / constants; which one is not modelled.
